@@ -7,7 +7,7 @@ use serde_json::{json, Value};
 pub const DEF: PropDef = PropDef {
     id: "C05",
     level: "exploration",
-    rule: "complete enumeration of programs = fixed prelude (global x, helper function yod) + function `zed takes u` whose body is every sequence of 1..2 (thorough 1..3) statements of a 22-statement body alphabet (locals, parameter mutation, global update, returns at every depth, recursion, nested call, pronoun read/write, array parameter mutation) + every sequence of 1..2 (with one-statement bodies: 1..3) statements of a 38-statement caller alphabet (calls in every position, wrong arity, calling a variable / unknown name, leaked locals, block locals, shadowing, side-effecting arguments, arrays by value, pronouns after blocks and calls); plus the pronoun-after-naming family: 38 statements that name several variables (subscript reads, operators, short-circuit, lists, every statement kind with a destination, calls, conditions of if / while / until) x 7 pronoun uses, at top level and inside a function; outcome and output compared with the reference interpreter under both scoping disciplines; non-trivial = judged (not skipped as unspecified); distinct = distinct program text",
+    rule: "complete enumeration of programs = fixed prelude (global x, helper function yod) + function `zed takes u` whose body is every sequence of 1..2 (thorough 1..3) statements of a 22-statement body alphabet (locals, parameter mutation, global update, returns at every depth, recursion, nested call, pronoun read/write, array parameter mutation) + every sequence of 1..2 (with one-statement bodies: 1..3) statements of a 38-statement caller alphabet (calls in every position, wrong arity, calling a variable / unknown name, leaked locals, block locals, shadowing, side-effecting arguments, arrays by value, pronouns after blocks and calls); plus the pronoun-after-naming family: 38 statements that name several variables (subscript reads, operators, short-circuit, lists, every statement kind with a destination, calls, conditions of if / while / until) x 7 pronoun uses, at top level and inside a function; plus 14 shapes that create a local in one scope and open a later scope of every kind (block, else, loop iteration, call, nested function) x 5 names of the three kinds; outcome and output compared with the reference interpreter under both scoping disciplines; non-trivial = judged (not skipped as unspecified); distinct = distinct program text",
     assumptions: &[
         "programs on which lexical and dynamic scoping differ (callee touching a caller's non-global local) are skipped as U-scope; pronoun uses whose referent depends on unspecified evaluation order are skipped as U-pronoun",
         "reference interpreter written from the property text",
@@ -155,6 +155,36 @@ fn naming_programs() -> Vec<String> {
     out
 }
 
+/// a local of each name kind in one scope, then a later scope of every kind (block, iteration, call) that
+/// must not see it; `@` is the local, `#` a second name of the same kind
+pub const SCOPE_SHAPES: &[&str] = &[
+    "if true\nput 1 into @\nsay @\n\nif true\nsay @\n\n",
+    "if true\nput 1 into @\n\nif true\nrock @ with 5\nsay @\n\n",
+    "if true\nput 1 into @\n\nif false\nsay 0\nelse\nsay @\n\n",
+    "put 0 into c\nwhile c is less than 3\nbuild c up\nrock @ with 1\nsay @\n\n",
+    "put 0 into c\nwhile c is less than 2\nbuild c up\nif c is 2\nsay @\n\nput c into @\n\n",
+    "put 0 into c\nuntil c is 2\nbuild c up\nrock # with c\nsay #\nput 1 into @\n\nif true\nsay @\n\n",
+    "mk takes k\nput k into @\ngive back @\n\nsay mk taking 1\nif true\nsay @\n\n",
+    "mk takes @\ngive back @\n\nsay mk taking 1\nmo takes k\ngive back @\n\nsay mo taking 2\n",
+    "mk takes @\nrock @ with 1\ngive back @\n\nsay mk taking 1\nsay mk taking 1\nsay mk taking 1\n",
+    "mk takes k\n# takes j\ngive back j plus 1\n\ngive back # taking k\n\nsay mk taking 1\nif true\nsay # taking 2\n\n",
+    "if true\nput 1 into @\n\nsay 5\nuntil true\nsay 6\n\nif true\nput 2 into #\nsay #\nsay @\n\n",
+    "if true\nif true\nput 1 into @\n\nif true\nsay @\n\n\n",
+    "put 7 into @\nif true\nput 1 into @\nput 2 into #\n\nsay @\nif true\nsay #\n\n",
+    "mk takes k\nif k\nput 1 into @\n\nif k\nsay @\n\ngive back 0\n\nsay mk taking 1\n",
+];
+pub const SCOPE_NAMES: &[(&str, &str)] = &[("zork", "yelp"), ("the zork", "my yelp"), ("Zork Yod", "Yelp Qux"), ("ZORK", "Yelp"), ("Élan Zork", "Über Yelp Zed")];
+
+fn scope_programs() -> Vec<String> {
+    let mut v = Vec::new();
+    for sh in SCOPE_SHAPES {
+        for (a, b) in SCOPE_NAMES {
+            v.push(sh.replace('@', a).replace('#', b));
+        }
+    }
+    v
+}
+
 fn build(tier: Tier) -> Box<dyn Check> {
     let b: Space<&'static str> = Space::of(BODY.to_vec());
     let m: Space<&'static str> = Space::of(MAIN.to_vec());
@@ -164,9 +194,9 @@ fn build(tier: Tier) -> Box<dyn Check> {
     let f2 = b.seq_range(1, 1).product(&m.seq_range(3, 3), |b, m| program(&b, &m));
     if tier == Tier::Thorough {
         let f3 = b.seq_range(2, 2).product(&m.seq_range(3, 3), |b, m| program(&b, &m));
-        return Box::new(C05 { fams: vec![("body x caller".into(), f1), ("one-statement body x 3 caller statements".into(), f2), ("thresholds".into(), Space::of(super::scale::programs())), ("pronoun after naming".into(), Space::of(naming_programs())), ("two-statement body x 3 caller statements".into(), f3)] });
+        return Box::new(C05 { fams: vec![("body x caller".into(), f1), ("one-statement body x 3 caller statements".into(), f2), ("thresholds".into(), Space::of(super::scale::programs())), ("pronoun after naming".into(), Space::of(naming_programs())), ("locals in consecutive scopes".into(), Space::of(scope_programs())), ("two-statement body x 3 caller statements".into(), f3)] });
     }
-    Box::new(C05 { fams: vec![("body x caller".into(), f1), ("one-statement body x 3 caller statements".into(), f2), ("thresholds".into(), Space::of(super::scale::programs())), ("pronoun after naming".into(), Space::of(naming_programs()))] })
+    Box::new(C05 { fams: vec![("body x caller".into(), f1), ("one-statement body x 3 caller statements".into(), f2), ("thresholds".into(), Space::of(super::scale::programs())), ("pronoun after naming".into(), Space::of(naming_programs())), ("locals in consecutive scopes".into(), Space::of(scope_programs()))] })
 }
 
 impl Check for C05 {
